@@ -8,6 +8,7 @@ pub mod c07;
 pub mod c08;
 pub mod c09;
 pub mod c13;
+pub mod c14;
 pub mod c15;
 pub mod c17;
 pub mod c18;
@@ -23,6 +24,7 @@ pub fn lookup(prop: &str) -> Option<fn(&Ctx)> {
         "C08" => c08::run,
         "C09" => c09::run,
         "C13" => c13::run,
+        "C14" => c14::run,
         "C15" => c15::run,
         "C17" => c17::run,
         "C18" => c18::run,
